@@ -196,7 +196,8 @@ fn lib_main(a: &Args) {
 struct LogFile {
     path: String,
     msgs: Vec<GenMsg>,
-    big: u64, // > 0: a big uniform log of that many messages (only frame summaries are recorded)
+    big: u64, // > 0: a big periodic log of that many messages (only frame summaries are recorded)
+    orig: Arc<Vec<GenMsg>>, // the generated messages (= msgs; for big logs msgs stays empty: not written into the trace)
 }
 
 #[derive(Clone, Debug)]
@@ -248,6 +249,7 @@ struct SrvCase {
     searches: Vec<(u64, u64, Vec<F>)>, // (start, page size, search filters): paged until next = null
     lookups: Vec<(String, u64)>,       // ("index"|"time", value)
     pred: Value,                       // TLC's prediction (drift statistics only)
+    binary: bool,                      // binary DltMsgs frames, else text frames `stream:<id> msg(<pos>):<header text>`
     extreme: bool,                     // extreme numeric parameters: runs alone on a dedicated server process (restarted if it dies)
 }
 
@@ -266,18 +268,82 @@ struct Sess {
     conn: Conn,
     evs: Vec<Value>,
     big: bool,
+    orig: Arc<Vec<GenMsg>>,
+    txt: Option<TxtRun>,
     file_msgs: u64,
     data_frames: u64, // DltMsgs / StreamInfo frames seen (for the idle detection)
     sentinel: u64,
     dead: bool,
 }
 
+const SUM_MOD: u64 = 1_000_003;
+
+/// a run of text frames of one stream id (flushed into one txt_sum event)
+struct TxtRun {
+    id: u64,
+    n: u64,
+    pos0: u64,
+    last_pos: u64,
+    posinc: u64,
+    first: u64,
+    last: u64,
+    sum: u64,
+    intact: u64,
+}
+
 impl Sess {
+    /// record an event (a pending run of text frames goes first)
+    fn push(&mut self, v: Value) {
+        self.flush_txt();
+        self.evs.push(v);
+    }
+    fn flush_txt(&mut self) {
+        if let Some(r) = self.txt.take() {
+            self.evs.push(json!({"ev":"txt_sum","id":r.id,"n":r.n,"pos0":r.pos0,"posinc":r.posinc,"first":r.first,"last":r.last,"sum":r.sum,"intact":r.intact}));
+        }
+    }
+    /// `stream:<id> msg(<pos>):<index> <date> <time> <timestamp> <mcnt> <ecu> <apid> <ctid> ...`
+    fn on_text_frame(&mut self, t: &str) {
+        let parsed = (|| {
+            let rest = t.strip_prefix("stream:")?;
+            let (id, rest) = rest.split_once(" msg(")?;
+            let (pos, hdr) = rest.split_once("):")?;
+            let f: Vec<&str> = hdr.split_whitespace().collect();
+            Some((id.parse::<u64>().ok()?, pos.parse::<u64>().ok()?, f.first()?.parse::<u64>().ok()?, f.get(3)?.parse::<u64>().ok()?,
+                  f.get(4)?.parse::<u64>().ok()?, f.get(5)?.to_string(), f.get(6)?.to_string(), f.get(7)?.to_string()))
+        })();
+        let (id, pos, idx, ts, mcnt, e, a, c) = match parsed {
+            Some(p) => p,
+            None => {
+                self.push(json!({"ev":"text_unparsable","text":trunc(t, 120)}));
+                return;
+            }
+        };
+        self.data_frames += 1;
+        let intact = self.orig.get(idx as usize).map(|g| g.t_ms * 10 == ts && g.mcnt as u64 == mcnt && g.ecu == e && g.apid == a && g.ctid == c).unwrap_or(false) as u64;
+        match self.txt.as_mut() {
+            Some(r) if r.id == id => {
+                r.n += 1;
+                if pos == r.last_pos + 1 {
+                    r.posinc += 1;
+                }
+                r.last_pos = pos;
+                r.last = idx;
+                r.sum = (r.sum + idx) % SUM_MOD;
+                r.intact += intact;
+            }
+            _ => {
+                self.flush_txt();
+                self.txt = Some(TxtRun { id, n: 1, pos0: pos, last_pos: pos, posinc: 0, first: idx, last: idx, sum: idx % SUM_MOD, intact });
+            }
+        }
+    }
     /// handle one frame; returns the text if it is a reply-like text frame
     fn on_frame(&mut self, fr: Frame) -> Option<String> {
         match fr {
             Frame::Text(t) => {
                 if t.starts_with("stream:") {
+                    self.on_text_frame(&t);
                     None
                 } else {
                     Some(t)
@@ -289,30 +355,41 @@ impl Sess {
                         self.data_frames += 1;
                         if self.big && !msgs.is_empty() {
                             // big windows: only a summary of the frame (the contract checks that the frames tile the window)
-                            let inc = msgs.windows(2).filter(|w| w[1].index == w[0].index + 1).count();
-                            self.evs.push(json!({"ev":"bin_sum","id":id,"n":msgs.len(),"first":msgs[0].index,"last":msgs[msgs.len() - 1].index,"inc":inc}));
+                            let sum = msgs.iter().fold(0u64, |s, m| (s + m.index as u64) % SUM_MOD);
+                            // data equality with the generated message of that index (every field the statement lists)
+                            let intact = msgs
+                                .iter()
+                                .filter(|m| {
+                                    self.orig.get(m.index as usize).map(|g| {
+                                        m.reception_time == BASE_US + g.t_ms * 1000 && m.timestamp_dms as u64 == g.t_ms * 10 && m.mcnt == g.mcnt
+                                            && char4_str(m.ecu) == g.ecu && char4_str(m.apid) == g.apid && char4_str(m.ctid) == g.ctid && m.payload_as_text == g.text
+                                    }).unwrap_or(false)
+                                })
+                                .count();
+                            let ev = json!({"ev":"bin_sum","id":id,"n":msgs.len(),"first":msgs[0].index,"last":msgs[msgs.len() - 1].index,"sum":sum,"intact":intact});
+                            self.push(ev);
                             return None;
                         }
                         let recs: Vec<Value> = msgs
                             .iter()
                             .map(|m| msg_rec(m.index, m.reception_time, m.timestamp_dms, m.ecu, m.apid, m.ctid, m.mcnt, &m.payload_as_text))
                             .collect();
-                        self.evs.push(json!({"ev":"bin_msgs","id":id,"n":recs.len(),"msgs":recs}));
+                        self.push(json!({"ev":"bin_msgs","id":id,"n":recs.len(),"msgs":recs}));
                     }
                     Some(BinType::FileInfo(fi)) => self.file_msgs = fi.nr_msgs as u64,
                     Some(BinType::StreamInfo(_)) => self.data_frames += 1,
                     Some(_) => {}
-                    None => self.evs.push(json!({"ev":"bin_undecodable","len":b.len()})),
+                    None => self.push(json!({"ev":"bin_undecodable","len":b.len()})),
                 }
                 None
             }
             Frame::Closed(why) => {
-                self.evs.push(json!({"ev":"conn_closed","why":trunc(&why, 120)}));
+                self.push(json!({"ev":"conn_closed","why":trunc(&why, 120)}));
                 self.dead = true;
                 None
             }
             Frame::Timeout => {
-                self.evs.push(json!({"ev":"timeout"}));
+                self.push(json!({"ev":"timeout"}));
                 self.dead = true;
                 None
             }
@@ -324,7 +401,7 @@ impl Sess {
             return None;
         }
         if let Err(e) = self.conn.send(text) {
-            self.evs.push(json!({"ev":"conn_closed","why":trunc(&e, 120)}));
+            self.push(json!({"ev":"conn_closed","why":trunc(&e, 120)}));
             self.dead = true;
             return None;
         }
@@ -392,9 +469,9 @@ fn run_srv_case(port: u16, case: usize, cs: &SrvCase, logs: &[LogFile], logline:
             return evs;
         }
     };
-    let mut s = Sess { conn, evs, big: lf.big > 0, file_msgs: 0, data_frames: 0, sentinel: 0, dead: false };
+    let mut s = Sess { conn, evs, big: lf.big > 0, orig: lf.orig.clone(), txt: None, file_msgs: 0, data_frames: 0, sentinel: 0, dead: false };
     let fail = |s: &mut Sess, what: &str, t: Option<String>| {
-        s.evs.push(json!({"ev":"unexpected_reply","to":what,"text":trunc(&t.unwrap_or_default(), 200)}));
+        s.push(json!({"ev":"unexpected_reply","to":what,"text":trunc(&t.unwrap_or_default(), 200)}));
     };
     'run: {
         let r = s.cmd(&format!("open {}", json!({"files":[lf.path]})));
@@ -403,14 +480,14 @@ fn run_srv_case(port: u16, case: usize, cs: &SrvCase, logs: &[LogFile], logline:
             break 'run;
         }
         if cs.late && !s.quiesce(n) {
-            s.evs.push(json!({"ev":"timeout","at":"parse"}));
+            s.push(json!({"ev":"timeout","at":"parse"}));
             break 'run;
         }
         if cs.paused_query {
             let _ = s.cmd("pause");
         }
         let parsed = s.file_msgs >= n;
-        let params = json!({"window":[cs.win.0, cs.win.1],"binary":true,"filters":f_json(&cs.filt)});
+        let params = json!({"window":[cs.win.0, cs.win.1],"binary":cs.binary,"filters":f_json(&cs.filt)});
         let r = s.cmd(&format!("{} {}", cs.kind, params));
         let mut id = match r.as_deref().and_then(parse_ok_json) {
             Some((_, v)) if v["id"].is_u64() => v["id"].as_u64().unwrap(),
@@ -419,18 +496,18 @@ fn run_srv_case(port: u16, case: usize, cs: &SrvCase, logs: &[LogFile], logline:
                 break 'run;
             }
         };
-        s.evs.push(json!({"ev":"ok_stream","id":id,"kind":cs.kind,"filt":f_abs(&cs.filt),"win":[sat(cs.win.0), sat(cs.win.1)],"parsed":parsed}));
+        s.push(json!({"ev":"ok_stream","id":id,"kind":cs.kind,"filt":f_abs(&cs.filt),"win":[sat(cs.win.0), sat(cs.win.1)],"parsed":parsed}));
         let change = |s: &mut Sess, id: &mut u64, w: (u64, u64)| -> bool {
             let r = s.cmd(&format!("stream_change_window {} {},{}", id, w.0, w.1));
             match r.as_deref().and_then(parse_ok_json) {
                 Some((old, v)) if v["id"].is_u64() => {
                     let new = v["id"].as_u64().unwrap();
-                    s.evs.push(json!({"ev":"ok_change","old":old,"id":new,"win":[sat(v["window"][0].as_u64().unwrap_or(0)), sat(v["window"][1].as_u64().unwrap_or(0))]}));
+                    s.push(json!({"ev":"ok_change","old":old,"id":new,"win":[sat(v["window"][0].as_u64().unwrap_or(0)), sat(v["window"][1].as_u64().unwrap_or(0))]}));
                     *id = new;
                     true
                 }
                 _ => {
-                    s.evs.push(json!({"ev":"unexpected_reply","to":"stream_change_window","text":trunc(&r.unwrap_or_default(), 200)}));
+                    s.push(json!({"ev":"unexpected_reply","to":"stream_change_window","text":trunc(&r.unwrap_or_default(), 200)}));
                     false
                 }
             }
@@ -450,11 +527,11 @@ fn run_srv_case(port: u16, case: usize, cs: &SrvCase, logs: &[LogFile], logline:
         }
         if !s.quiesce(n) {
             if !s.dead {
-                s.evs.push(json!({"ev":"timeout","at":"quiescence"}));
+                s.push(json!({"ev":"timeout","at":"quiescence"}));
             }
             break 'run;
         }
-        s.evs.push(json!({"ev":"quiescent"}));
+        s.push(json!({"ev":"quiescent"}));
         if !cs.paused_query {
             for w in &cs.changes {
                 if !change(&mut s, &mut id, *w) {
@@ -462,11 +539,11 @@ fn run_srv_case(port: u16, case: usize, cs: &SrvCase, logs: &[LogFile], logline:
                 }
                 if !s.quiesce(n) {
                     if !s.dead {
-                        s.evs.push(json!({"ev":"timeout","at":"quiescence"}));
+                        s.push(json!({"ev":"timeout","at":"quiescence"}));
                     }
                     break 'run;
                 }
-                s.evs.push(json!({"ev":"quiescent"}));
+                s.push(json!({"ev":"quiescent"}));
             }
         }
         if cs.kind == "stream" {
@@ -477,7 +554,7 @@ fn run_srv_case(port: u16, case: usize, cs: &SrvCase, logs: &[LogFile], logline:
                     match r.as_deref().and_then(parse_ok_json) {
                         Some((_, v)) if v["search_idxs"].is_array() => {
                             let next = v["next_search_idx"].as_i64().unwrap_or(-1);
-                            s.evs.push(json!({"ev":"ok_search","id":id,"start":sat(st),"max":sat(*max),"filt":f_abs(sf),"idxs":v["search_idxs"],"next":next}));
+                            s.push(json!({"ev":"ok_search","id":id,"start":sat(st),"max":sat(*max),"filt":f_abs(sf),"idxs":v["search_idxs"],"next":next}));
                             if next < 0 {
                                 break;
                             }
@@ -505,11 +582,11 @@ fn run_srv_case(port: u16, case: usize, cs: &SrvCase, logs: &[LogFile], logline:
                 let r = s.cmd(&format!("stream_binary_search {} {}", id, arg));
                 match r.as_deref().and_then(parse_ok_json) {
                     Some((_, v)) if v["filtered_msg_index"].is_u64() => {
-                        s.evs.push(json!({"ev":"ok_bsearch","id":id,"key":key,"val":val,"pos":v["filtered_msg_index"]}));
+                        s.push(json!({"ev":"ok_bsearch","id":id,"key":key,"val":val,"pos":v["filtered_msg_index"]}));
                     }
                     _ => {
                         if r.as_deref().map(|t| t.starts_with("err:")).unwrap_or(false) {
-                            s.evs.push(json!({"ev":"err_bsearch","id":id,"key":key,"val":val}));
+                            s.push(json!({"ev":"err_bsearch","id":id,"key":key,"val":val}));
                         } else {
                             fail(&mut s, "stream_binary_search", r);
                             break 'run;
@@ -519,7 +596,7 @@ fn run_srv_case(port: u16, case: usize, cs: &SrvCase, logs: &[LogFile], logline:
             }
             let r = s.cmd(&format!("stop {}", id));
             if r.as_deref().map(|t| t.starts_with("ok:")).unwrap_or(false) {
-                s.evs.push(json!({"ev":"stopped","id":id}));
+                s.push(json!({"ev":"stopped","id":id}));
             } else {
                 fail(&mut s, "stop", r);
                 break 'run;
@@ -530,8 +607,9 @@ fn run_srv_case(port: u16, case: usize, cs: &SrvCase, logs: &[LogFile], logline:
             fail(&mut s, "close", r);
             break 'run;
         }
-        s.evs.push(json!({"ev":"end"}));
+        s.push(json!({"ev":"end"}));
     }
+    s.flush_txt();
     let Sess { conn, evs, .. } = s;
     conn.close();
     evs
@@ -663,7 +741,7 @@ fn srv_main(a: &Args) {
                     .collect();
                 let path = format!("{}/tiny-{}.dlt", dir, logs.len());
                 write_log(&path, &msgs);
-                logs.push(LogFile { path, msgs, big: 0 });
+                { let orig = Arc::new(msgs.clone()); logs.push(LogFile { path, msgs, big: 0, orig }); }
                 logs.len() - 1
             });
             let filt = parse_filters(&v["filt"]);
@@ -682,7 +760,7 @@ fn srv_main(a: &Args) {
                 searches: v["search"].as_array().map(|a| a.iter().map(|s| (s[0].as_u64().unwrap(), s[1].as_u64().unwrap(), sf.clone())).collect()).unwrap_or_default(),
                 lookups: v["lookups"].as_array().map(|a| a.iter().map(|s| (s[0].as_str().unwrap().to_string(), s[1].as_u64().unwrap())).collect()).unwrap_or_default(),
                 pred: v["pred"].clone(),
-                extreme: false,
+                binary: true, extreme: false,
             });
         }
     }
@@ -698,7 +776,7 @@ fn srv_main(a: &Args) {
         let msgs = if k <= 1 { gen_log(&mut rng, n, &ECUS, &APIDS, &CTIDS) } else { gen_log_dt(&mut rng, n, &ECUS, &APIDS, &CTIDS, 100, 400) };
         let path = format!("{}/log-{}.dlt", dir, k);
         write_log(&path, &msgs);
-        logs.push(LogFile { path, msgs, big: 0 });
+        { let orig = Arc::new(msgs.clone()); logs.push(LogFile { path, msgs, big: 0, orig }); }
     }
     for k in 0..n_random {
         // one third of the sessions on the small / burst logs, two thirds on the logs that stream through
@@ -748,33 +826,49 @@ fn srv_main(a: &Args) {
             searches,
             lookups,
             pred: Value::Null,
-            extreme: false,
+            binary: !rng.chance(1, 5), extreme: false,
         });
     }
-    // (C) windows of tens of thousands of messages on a big uniform log (more than any per-iteration limit of the server
-    //     loop): queries and streams on the completely loaded file and during parsing; frames are recorded as summaries
+    // (C) windows of thousands to tens of thousands of messages on a big log whose ecu / apid / ctid repeat periodically (more
+    //     messages due at once than any per-iteration limit or batch threshold of the server loop): filter sets of every shape,
+    //     streams and queries, binary and text, on the completely loaded file (everything due at once) and during parsing;
+    //     frames are recorded as summaries (first / last index, index sum, equality with the generated messages)
     let n_big = a.num("--big", 0);
     let first_bigcase = cases.len();
     if n_big > 0 {
+        let (pe, pa, pc) = (["ECUA", "ECUB"], ["APIA", "APIB", "APIC"], ["CTIA", "CTIB", "CTIC", "CTID", "CTIE"]);
         let msgs: Vec<GenMsg> = (0..n_big as usize)
-            .map(|i| GenMsg { ecu: "ECUA".into(), apid: "APIA".into(), ctid: "CTIA".into(), t_ms: 1000 + i as u64, mcnt: (i % 256) as u8, text: format!("m{}", i) })
+            .map(|i| GenMsg { ecu: pe[i % 2].into(), apid: pa[i % 3].into(), ctid: pc[i % 5].into(), t_ms: 1000 + i as u64, mcnt: (i % 256) as u8, text: format!("m{}", i) })
             .collect();
         let path = format!("{}/biglog.dlt", dir);
         write_log(&path, &msgs);
-        logs.push(LogFile { path, msgs: vec![], big: n_big });
+        logs.push(LogFile { path, msgs: vec![], big: n_big, orig: Arc::new(msgs) });
         let li = logs.len() - 1;
-        let all = vec![lit("event", true, "ECUA", "", ""), lit("neg", false, "ECUA", "", "")];
+        let unf: Vec<F> = vec![];
+        let pos = vec![lit("pos", true, "ECUA", "", "")];                                                   // 1/2
+        let neg = vec![lit("neg", true, "", "APIB", ""), lit("marker", true, "ECUA", "", "")];              // 2/3
+        let event = vec![lit("event", true, "", "", "CTIA"), lit("event", true, "", "", "CTIB"), lit("pos", false, "ECUB", "", "")]; // 2/5
+        let pne = vec![lit("pos", true, "ECUA", "", ""), lit("pos", true, "", "APIC", ""), lit("neg", true, "", "", "CTIE"), lit("event", true, "", "APIA", ""), lit("event", true, "", "APIC", "")];
+        let all = vec![lit("event", true, "ECUA", "", ""), lit("event", true, "ECUB", "", ""), lit("neg", false, "ECUA", "", "")];
         let none = vec![lit("pos", true, "", "NONE", "")];
-        let mk = |kind: &str, late: bool, filt: &Vec<F>, win: (u64, u64), changes: Vec<(u64, u64)>| SrvCase {
+        let mk = |kind: &str, late: bool, binary: bool, filt: &Vec<F>, win: (u64, u64), changes: Vec<(u64, u64)>| SrvCase {
             src: "big".into(), log: li, kind: kind.into(), late, paused_query: false, filt: filt.clone(), win, early_change: None, changes,
-            searches: vec![], lookups: vec![], pred: Value::Null, extreme: false,
+            searches: vec![], lookups: vec![], pred: Value::Null, binary, extreme: false,
         };
-        cases.push(mk("query", true, &vec![], (0, n_big), vec![]));
-        cases.push(mk("query", true, &all, (0, n_big + 10), vec![]));
-        cases.push(mk("stream", true, &vec![], (0, n_big), vec![(5, n_big - 3000), (0, n_big + 1)]));
-        cases.push(mk("stream", false, &all, (100, n_big), vec![(0, n_big)]));
-        cases.push(mk("query", true, &none, (0, n_big), vec![]));
-        cases.push(mk("query", true, &all, (n_big / 2, n_big), vec![]));
+        cases.push(mk("query", true, true, &unf, (0, n_big), vec![]));
+        cases.push(mk("query", true, true, &all, (0, n_big + 10), vec![]));
+        cases.push(mk("query", true, true, &pos, (0, 40_000), vec![]));
+        cases.push(mk("query", true, true, &pne, (0, n_big), vec![]));
+        cases.push(mk("query", true, true, &event, (n_big / 7, n_big), vec![]));
+        cases.push(mk("query", true, true, &none, (0, n_big), vec![]));
+        cases.push(mk("stream", true, true, &unf, (0, n_big), vec![(5, n_big - 3000), (0, n_big + 1)]));
+        cases.push(mk("stream", true, true, &neg, (100, 5000), vec![(0, 46_000), (40_000, 45_000)]));
+        cases.push(mk("stream", true, true, &event, (0, n_big), vec![(5, 4200)]));
+        cases.push(mk("stream", false, true, &pos, (100, n_big), vec![(0, n_big)]));
+        cases.push(mk("stream", false, true, &all, (0, n_big), vec![]));
+        cases.push(mk("query", true, false, &event, (0, 6000), vec![]));
+        cases.push(mk("stream", true, false, &neg, (3, 5000), vec![(4500, 9000)]));
+        cases.push(mk("stream", false, false, &unf, (10, 4200), vec![]));
     }
     // (D) numeric extreme classes for every numeric parameter (window start / end, start_idx, max_results, index, time_ms) on the
     //     small log (if present): three sessions per class so that a command that kills the connection (or the process)
@@ -794,7 +888,7 @@ fn srv_main(a: &Args) {
         for (name, v, t) in &classes {
             let mk = |win: (u64, u64), changes: Vec<(u64, u64)>, searches: Vec<(u64, u64, Vec<F>)>, lookups: Vec<(String, u64)>, filt: &Vec<F>| SrvCase {
                 src: format!("extreme:{}", name), log: li, kind: "stream".into(), late: true, paused_query: false, filt: filt.clone(), win,
-                early_change: None, changes, searches, lookups, pred: Value::Null, extreme: true,
+                early_change: None, changes, searches, lookups, pred: Value::Null, binary: true, extreme: true,
             };
             cases.push(mk((0, *v), vec![(*v, n + 5), (2, *v)], vec![(*v, 3, sf.clone())], vec![("index".into(), *v)], &filt));
             cases.push(mk((*v, n + 5), vec![], vec![], vec![("time_abs".into(), *t)], &vec![]));
@@ -832,7 +926,7 @@ fn srv_main(a: &Args) {
             .map(|(i, g)| json!({"i": i, "rx": g.t_ms, "ts": g.t_ms * 10, "e": g.ecu, "a": g.apid, "c": g.ctid, "mc": g.mcnt, "h": hash31(g.text.as_bytes())}))
             .collect();
         if lf.big > 0 {
-            t.ev(json!({"ev":"log","name":k,"n":lf.big,"uniform":{"e":"ECUA","a":"APIA","c":"CTIA"},"msgs":[]}));
+            t.ev(json!({"ev":"log","name":k,"n":lf.big,"period":{"e":["ECUA","ECUB"],"a":["APIA","APIB","APIC"],"c":["CTIA","CTIB","CTIC","CTID","CTIE"]},"msgs":[]}));
         } else {
             t.ev(json!({"ev":"log","name":k,"msgs":recs}));
         }
@@ -923,7 +1017,7 @@ fn srv_main(a: &Args) {
         }
         for e in evs {
             match e["ev"].as_str().unwrap() {
-                "bin_msgs" | "bin_sum" => {
+                "bin_msgs" | "bin_sum" | "txt_sum" => {
                     frames += 1;
                     delivered += e["n"].as_u64().unwrap();
                 }
